@@ -91,6 +91,8 @@ func init() {
 					o := Obligation{Rule: rule, Func: fn, Construct: "reads " + sp.field, Pos: c.Pos(reads[fn][0].Pos())}
 					if why, ok := sp.permitted[fn]; ok {
 						o.Verdict, o.Detail = Proved, fmt.Sprintf("permitted reader (%d reads): %s", len(reads[fn]), why)
+					} else if via, ok := c.servesPermitted(fn, func(n string) bool { _, p := sp.permitted[n]; return p }); ok {
+						o.Verdict, o.Detail = Proved, fmt.Sprintf("private helper of the permitted reader %s (%d reads)", via, len(reads[fn]))
 					} else {
 						o.Verdict, o.Detail = Violated, "raw read of a limit field outside its accessor: the `zero means default` convention is bypassed here (a limit of 0 silently becomes `no limit`); permitted: "+strings.Join(sortedKeys(sp.permitted), ", ")
 					}
